@@ -26,7 +26,8 @@ pub struct Adversary {
 /// address of the off-path attacker that sends datagrams belonging to no connection; replies to it are
 /// recorded (`to-attacker`) and go nowhere
 pub const ATTACKER: ([u8; 4], u16) = ([10, 66, 66, 66], 6666);
-const STRAY_SIZES: [usize; 14] = [20, 40, 41, 42, 43, 44, 58, 100, 600, 1199, 1200, 1201, 1350, 1472];
+const STRAY_SIZES: [usize; 14] = [1200, 43, 1199, 42, 1201, 44, 41, 100, 600, 20, 40, 58, 1350, 1472];
+const TINY_SIZES: [usize; 6] = [43, 42, 44, 41, 20, 40];
 
 fn attacker_addr() -> s2n_quic_core::inet::SocketAddress {
     std::net::SocketAddr::from(ATTACKER).into()
@@ -258,22 +259,28 @@ impl Network for Adversary {
         let head = |p: &[u8]| head_n(p, wire_head);
         // datagrams that belong to no connection, from a third address to the server (only when asked for)
         if !self.cfg.inject_kind.is_empty() && count > 0 && self.rng.pm(self.cfg.inject_kind_pm) {
-            let at = now + self.cfg.delay_ms * 1000;
             let client = self.client_addr.clone();
             let c2s = self.seen.iter().find(|p| Some(format!("{}", p.path.local_address.0)) == client).cloned();
-            if let (Some(mut p), true) = (c2s, at != self.stray_last_at) {
+            for k in 0..self.cfg.inject_burst.max(1) {
+                // every stray gets its own delivery instant so that the server's reply can be attributed to it
+                let at = now + self.cfg.delay_ms * 1000 + k;
+                let Some(mut p) = c2s.clone() else { break };
+                if self.stray_last_at != u64::MAX && at <= self.stray_last_at {
+                    continue;
+                }
                 const KINDS: [&str; 4] = ["unknown-cid-short", "unknown-version-long", "vn-packet", "tiny"];
                 let kind = if self.cfg.inject_kind == "mix" {
                     KINDS[(self.stray_count % 4) as usize].to_string()
                 } else {
                     self.cfg.inject_kind.clone()
                 };
+                let round = if self.cfg.inject_kind == "mix" { self.stray_count / 4 } else { self.stray_count };
                 let size = if self.cfg.inject_size != 0 {
                     self.cfg.inject_size
                 } else if kind == "tiny" {
-                    STRAY_SIZES[((self.stray_count / 4) % 6) as usize]
+                    TINY_SIZES[(round % TINY_SIZES.len() as u64) as usize]
                 } else {
-                    STRAY_SIZES[((self.stray_count / 4) % STRAY_SIZES.len() as u64) as usize]
+                    STRAY_SIZES[(round % STRAY_SIZES.len() as u64) as usize]
                 };
                 self.stray_count += 1;
                 self.stray_last_at = at;
